@@ -158,27 +158,30 @@ recv = Fn(F, ["recv"], ret="r", extra_params="Tracked(k): Tracked<&mut K>",
     loops={0: Loop(invariants=[
         Clause("unix.recv.loop/loop0.invariant.only_abandoned_emissions_skipped_so_far",
                "k.q.dom().contains(fd) && k.sock == k0.sock && heads_ok(k0, k.q, fd, k.q[fd].len())\n"
-               "&& skipped(k0, k0.q, fd, nskip, k.q) && (nskip > 0 ==> !head_complete(k0, fd)) && (nskip == 0 ==> k.q == k0.q)", ["C12", "C03"]),
+               "&& skipped(k0, k0.q, fd, nskip, qs) && (nskip > 0 ==> !head_complete(k0, fd)) && (nskip == 0 ==> qs == k0.q)\n"
+               "&& (k.q == qs || (qs[fd].len() > 0 && !head_complete(with_q(k0, qs), fd) && k.q == after_head(qs, fd)))", ["C12", "C03"]),
         Clause("unix.recv.loop/loop0.invariant.every_receive_so_far_in_the_callers_mode",
                "k0.rx_modes.is_prefix_of(k.rx_modes)\n"
                "&& (forall|i: int| k0.rx_modes.len() <= i < k.rx_modes.len() ==> (#[trigger] k.rx_modes[i]) == (fd, mode_code(blocking_mode)))", ["C10"])],
         decreases="k.q[fd].len()")},
     hints=[
-        Hint("body:start", "let ghost k0 = *k;\nlet ghost mut nskip: nat = 0;"),
+        # ghost bookkeeping sits at the START of an iteration (a `continue` may skip the end of the body): `qs` is the queue state at
+        # the start of the current iteration; one abandoned emission consumed since then is folded into (nskip, qs) when the next one starts
+        Hint("body:start", "let ghost k0 = *k;\nlet ghost mut nskip: nat = 0;\nlet ghost mut qs = k.q;"),
         Hint("loop:0:start",
-             "let ghost kb = *k;\n"
              "proof {\n"
-             "    assert(head_ok(with_q(k0, kb.q), fd));\n"
-             "    assert(head_ok(kb, fd));\n"
-             "    assert(head_complete(with_q(k0, kb.q), fd) == head_complete(kb, fd));\n"
-             "}", "unix.recv.loop/loop0.invariant.only_abandoned_emissions_skipped_so_far"),
-        Hint("loop:0:end",
-             "proof {\n"
-             "    lemma_skipped_snoc(k0, k0.q, fd, nskip, kb.q);\n"
-             "    nskip = nskip + 1;\n"
+             "    if k.q != qs {\n"
+             "        lemma_skipped_snoc(k0, k0.q, fd, nskip, qs);\n"
+             "        nskip = nskip + 1;\n"
+             "    }\n"
+             "    qs = k.q;\n"
+             "    assert(head_ok(with_q(k0, qs), fd));\n"
+             "    assert(head_ok(*k, fd));\n"
+             "    assert(head_complete(with_q(k0, qs), fd) == head_complete(*k, fd));\n"
              "}", "unix.recv.loop/loop0.invariant.only_abandoned_emissions_skipped_so_far"),
     ],
-    rules=[AppendArg("B29", r"\brecv_message\(", "Tracked(&mut *k)", "the one-message receive (under contract above)", min_count=1)],
+    rules=[AppendArg("B29", r"\brecv_message\(", "Tracked(&mut *k)", "the one-message receive (under contract above)", min_count=1),
+           Rule("D35", r"Err\(From::from\((\w+)\)\)", r"Err(\1)", "`?` written out: in this function the error type converts to itself (From<T> for T is the identity)")],
     attrs="#[verifier::loop_isolation(false)]",
     safety_props=["C18"], termination_props=["C12", "C10"])
 
